@@ -5,6 +5,20 @@ NOTES = ("All checks are contract-based deductive verification with pyvc (DESIGN
          "contract, failed validation of an assumed external contract). Known findings: /verif/known_findings.json.")
 
 CLAIMS = {
+    "C03": {
+        "text": ("Proof of the accept/refuse matrix and of the ADD / DIVIDE value equations on the real Simulation.calculate_add, "
+                 "calculate_divide, _check_period_consistency and CorePopulation.__call__: for every definition period x request "
+                 "unit cell the statement speaks about, every path is executed symbolically for all start dates and sizes; ADD is "
+                 "shown to be the sum, over a symbolic piece index, of the variable at exactly the pieces of the C04 tiling, DIVIDE "
+                 "the value at the enclosing definition period divided by the number of requested units in it; refusals are "
+                 "exceptional postconditions."),
+        "note": ("Simulation.calculate enters through a call-site contract (raises, or returns the opaque value of the variable at "
+                 "that period); sub-period and size functions through their C04 contracts. Cross-family cells accepted by the unit "
+                 "weights are asserted neither way. Two genuine defects found by this check were repaired by fix: commits "
+                 "(known_findings.json). Same trusted base as C04."),
+        "technique": "contract-based deductive verification (symbolic path execution of the real source + SMT)",
+        "design_ref": "DESIGN.md section 4 C03",
+    },
     "C04": {
         "text": ("Proof, for all valid dates in years 1..9999 and all sizes, that the real Instant/Period arithmetic "
                  "(offset, stop, days, size_in_*, contains, intersection, get_subperiods, Period.offset, ten named reference "
